@@ -121,6 +121,8 @@ def run_case(case, expect_fault=False):
                 raise Violation(f"parallel_add raised {type(e).__name__}: {e} (n_workers=1, {len(PRIOR_ITEMS)} items)", "parallel-add-raised")
         prior_snap = [_snap(x) for x in (prior if isinstance(prior, tuple) else [prior])]
     patched = coopctx.Patched(case["sched_seed"], case.get("policy", "random"), n_workers, cores) if coop else fakectx.Patched(sched, n_workers, cores)
+    calls = []
+    cbmod.deliver_hook = lambda it: calls.append(repr(it["idx"]))
     with patched as ctx:
         try:
             res = helpers.parallel_add(arg_items, cb, n_workers=n_workers, **kw, **extra)
@@ -133,6 +135,8 @@ def run_case(case, expect_fault=False):
         inq = [q for q in ctx.queues if q.is_in_queue or q.pills]
         obs["put_items"] = len(inq[0].items) if inq else None
         obs["pills"] = inq[0].pills if inq else None
+        cbmod.deliver_hook = None
+        obs["callback_calls"] = calls
         obs["delivered"] = list(ctx.delivered)
         obs["child_errors"] = list(ctx.child_errors)
         obs["polls"] = ctx.polls
@@ -193,12 +197,14 @@ def check_result(case, res, obs):
     bonus = 2 if case.get("cb") == "kw" else 0
     present = [k for k in ("cms_args", "hh_args", "hll_args") if combo.get(k) is not None]
     ctx_s = f"n_workers={n_workers} schedule={case['schedule']}"
-    # every item delivered exactly once
-    if obs["put_items"] != len(items):
-        raise Violation(f"{len(items)} items were given but {obs['put_items']} were placed on the queue ({ctx_s})", "items-lost-or-duplicated")
-    cnt = Counter(j for _, j in obs["delivered"])
-    if sorted(cnt) != list(range(len(items))) or any(c != 1 for c in cnt.values()):
-        raise Violation(f"items delivered {dict(cnt)} times ({ctx_s})", "items-lost-or-duplicated")
+    # every item is handed to the callback exactly once (judged by the callback's own log, not by how the library moves
+    # items between its processes: an implementation may batch them)
+    want = Counter(repr(cbmod.normalize(it)["idx"]) for it in items)
+    got = Counter(obs["callback_calls"])
+    if want != got:
+        lost = sorted((want - got).elements())[:5]
+        extra = sorted((got - want).elements())[:5]
+        raise Violation(f"{len(items)} items were given; the callback was invoked {sum(got.values())} times: never for {lost}, too often for {extra} ({ctx_s})", "items-lost-or-duplicated")
     # identify the returned sketches by class (the order of the tuple is documented, but it is not part of
     # the property: an unexpected order is counted in the evidence, not reported)
     parts = list(res) if isinstance(res, tuple) else [res]
